@@ -126,7 +126,7 @@ def make_ghosts(sh):
 
 # ------------------------------------------------------------------------------------------ child / child_parents
 import itertools
-CHILD_MENU = [None, [('n', 'c1')], [('n', 'c1'), ('n', 'c2')], [('n', 'd1')], [('n', 'c1'), ('n', 'c3')]]
+CHILD_MENU = [None, [('n', 'c1')], [('n', 'c1'), ('n', 'c2')], [('n', 'd1')], [('n', 'c1'), ('n', 'c3')], [('n', 'c12')]]
 
 
 def child_shards(tier, seed):
@@ -136,7 +136,9 @@ def child_shards(tier, seed):
             for fallible in (False, True):
                 if tier == 'quick' and ((KINDS.index(kind) + (shape == 'tuple') + seed) % 2 or fallible != bool(KINDS.index(kind) % 2)):
                     continue
-                out.append({'family': 'child', 'shape': shape, 'kind': kind, 'fallible': fallible, 'menu': [0, 1, 2, 3] if tier == 'quick' else [0, 1, 2, 3, 4]})
+                if shape == 'named' and kind in ('OwnedInto', 'RefIntoExisting') and not fallible or (tier == 'quick' and shape == 'named' and kind == 'OwnedInto'):
+                    out.append({'family': 'child', 'shape': shape, 'kind': kind, 'fallible': fallible, 'menu': [0, 1], 'ghost_order': 'interleaved'})
+                out.append({'family': 'child', 'shape': shape, 'kind': kind, 'fallible': fallible, 'menu': [0, 1, 2, 5] if (tier == 'quick' and kind in ('OwnedInto', 'RefInto')) else ([0, 1, 2, 3] if tier == 'quick' else [0, 1, 2, 3, 4, 5])})
     return out
 
 
@@ -161,10 +163,13 @@ def make_child(sh):
             if i == 0:
                 ins.append(MapInstr('map', member=Ch('m0m', [None, ('n', 'zz'), ('i', 0)]), action=Ch('m0a', [None, '__e0(~, @)']), tag='e0'))
             out.append(Member(nm('f%d' % i), instrs=ins))
-        entries = [([('n', 'c1')], 'C1', 'Unspecified'), ([('n', 'c1'), ('n', 'c2')], 'C2', 'Unspecified'), ([('n', 'd1')], 'D1', 'Unspecified'), ([('n', 'c1'), ('n', 'c3')], 'C3', 'Unspecified')]
+        entries = [([('n', 'c1')], 'C1', 'Unspecified'), ([('n', 'c1'), ('n', 'c2')], 'C2', 'Unspecified'), ([('n', 'd1')], 'D1', 'Unspecified'), ([('n', 'c1'), ('n', 'c3')], 'C3', 'Unspecified'), ([('n', 'c12')], 'C12', 'Unspecified')]
         cp = ChildParents(entries)
-        gd = GhostsInstr('ghosts', data=[GhostData(('n', 'gz'), '__gz(@)', path=[('n', 'c1')], tag='gz'), GhostData(('n', 'gw'), '__gw(@)', path=[('n', 'd1')], tag='gw'),
-                                         GhostData(('n', 'gv'), '__gv(@)', path=[('n', 'c1'), ('n', 'c3')], tag='gv')])
+        gds = [GhostData(('n', 'gz'), '__gz(@)', path=[('n', 'c1')], tag='gz'), GhostData(('n', 'gv'), '__gv(@)', path=[('n', 'c1'), ('n', 'c3')], tag='gv'),
+               GhostData(('n', 'gw'), '__gw(@)', path=[('n', 'd1')], tag='gw')]
+        if sh.get('ghost_order') == 'interleaved':
+            gds = [gds[0], gds[2], gds[1]]
+        gd = GhostsInstr('ghosts', data=gds)
         return Spec('struct', shape=shape, traits=[t1], members=out, type_instrs=[cp] + ([gd] if shape == 'named' else []))
     return make
 
